@@ -796,6 +796,14 @@ func main() {
 				hasTP = append(hasTP, true)
 			}
 		}
+		// the untyped basic types (what go/types records for operands of constant expressions): identical to themselves only,
+		// never to their default types (int, rune, float64, ...), which are in the pool
+		for _, k := range []types.BasicKind{types.UntypedBool, types.UntypedInt, types.UntypedRune, types.UntypedFloat, types.UntypedComplex,
+			types.UntypedString, types.UntypedNil} {
+			ts = append(ts, types.Typ[k])
+			names = append(names, types.Typ[k].String())
+			hasTP = append(hasTP, false)
+		}
 		return
 	}
 	t1, names, hasTP := collect(u1)
